@@ -2,6 +2,8 @@
 // the resource partitioner; every body records where it runs at every phase.
 // usage: e2_place <seed> <perturb_per_1024> <mode> <size> <layout> [pika options...]
 //   mode  : mix (random concurrent pipelines, E2)  |  seq (one task at a time: placement function, E0)
+//           susp (every body suspends at once; hinted tasks on static pools)  |  mixoob (mix, and out-of-range
+//           worker hints also on shared-priority pools: reproduces the finding recorded in notes/C10.md)
 //   layout: comma separated extra pools `name:policy:npus[:e]` (e = elasticity on), or `-` for none;
 //           the default pool gets the remaining PUs and the policy given by --pika:scheduler
 // Prints: `case …`, synthesized `x.pool` lines, the event log, `monitor …` lines, `end ok|hang`.
@@ -472,7 +474,8 @@ int main(int argc, char** argv)
     }
     e2::g_place = true;
     g_susp_mode = mode == "susp";
-    g_oob_hints = std::getenv("C10_OOB_HINTS") != nullptr;
+    g_oob_hints = std::getenv("C10_OOB_HINTS") != nullptr || mode == "mixoob";
+    if (mode == "mixoob") mode = "mix";
     e2::install(seed, perturb);
     pika::init_params ip;
     ip.rp_callback = &rp_cb;
